@@ -23,18 +23,70 @@ func canonical() []runCase {
 	cd := func(n int, ug, um bool) class { return class{Arch: "cdna3", NGPU: n, UnifiedGPU: ug, UnifiedMem: um} }
 	tm := func(c class) class { c.Timing = true; return c }
 
-	// anchors (acceptance sizes, must hold)
+	// anchors at the acceptance sizes (must hold)
 	add("fir", []int{8192, 16}, g(1, false, false))
 	add("fir", []int{8192, 16}, tm(g(2, false, false)))
 	add("aes", []int{16384}, tm(g(2, false, false))) // stalled before fix e18fcb94
 	add("vectoradd", []int{4096, 1}, tm(cd(2, true, false)))
 	add("kmeans", []int{1024, 32, 5, 5}, g(4, false, true))
 
+	// fixed small-size sweep: every workload on gcn3 (and a cdna3 subset) in
+	// single-GPU emulation, so that the mechanisms C01 is aimed at (instruction
+	// semantics, kernel-argument marshalling, LDS pointer patching, partial
+	// work-groups, 2-D packets) are exercised identically at every seed
+	for _, x := range []struct {
+		n string
+		p []int
+	}{
+		{"nw", []int{128}}, {"matrixtranspose", []int{128}}, {"matrixmultiplication", []int{64, 64, 64}},
+		{"stencil2d", []int{32, 64, 2}}, {"pagerank", []int{33, 200, 3}}, {"nbody", []int{256, 2}},
+		{"floydwarshall", []int{16, 0}}, {"relu", []int{100}}, {"spmv", []int{100, 50}}, {"fir", []int{100, 16}},
+		{"aes", []int{1600}}, {"bitonicsort", []int{256}}, {"fastwalshtransform", []int{512}},
+		{"kmeans", []int{100, 4, 3, 3}}, {"atax", []int{33, 33}}, {"bicg", []int{33, 70}}, {"bfs", []int{64, 3}},
+		{"fft", []int{8192}}, {"simpleconvolution", []int{30, 17, 3}}, {"im2col", []int{1, 2, 9, 9, 3, 1, 2, 1}},
+		{"conv2d", []int{1, 1, 8, 8, 2, 3, 1, 1, 1}},
+	} {
+		add(x.n, x.p, g(1, false, false))
+	}
+	for _, x := range []struct {
+		n string
+		p []int
+	}{
+		{"vectoradd", []int{1088, 1}}, {"relu", []int{100}}, {"matrixtranspose", []int{128}}, {"floydwarshall", []int{16, 0}},
+		{"stencil2d", []int{32, 64, 2}}, {"nw", []int{128}}, {"aes", []int{1600}}, {"bfs", []int{64, 3}}, {"fft", []int{8192}},
+		{"nbody", []int{256, 2}}, {"kmeans", []int{100, 4, 3, 3}},
+	} {
+		add(x.n, x.p, cd(1, false, false))
+	}
+	// multi-GPU splits in benchmark host code, the driver's unified-GPU
+	// work-group distribution, unified memory
+	add("fir", []int{1024, 16}, g(2, false, false))
+	add("relu", []int{1028}, g(4, false, false))
+	add("matrixtranspose", []int{256}, g(2, false, false))
+	add("matrixmultiplication", []int{64, 64, 64}, g(2, false, false))
+	add("kmeans", []int{256, 32, 5, 2}, g(2, false, false))
+	add("aes", []int{1024}, g(4, false, false))
+	add("simpleconvolution", []int{30, 17, 3}, g(2, false, true))
+	add("bitonicsort", []int{256}, g(2, false, false))
+	add("vectoradd", []int{128, 1}, cd(2, true, false))
+	add("bfs", []int{64, 3}, g(4, true, false))
+	add("relu", []int{1028}, g(2, true, true))
+	add("stencil2d", []int{32, 64, 2}, cd(4, true, false))
+	add("relu", []int{4100}, g(2, true, false))                    // 65 work-groups: the 65th goes to the second GPU
+	add("simpleconvolution", []int{126, 34, 3}, g(2, true, false)) // 72 work-groups
+	add("vectoradd", []int{4096, 3}, cd(2, true, false))           // 192 work-groups
+	// timing platforms
+	add("fir", []int{1024, 16}, tm(g(1, false, false)))
+	add("matrixtranspose", []int{128}, tm(g(1, false, false)))
+	add("relu", []int{1028}, tm(g(2, true, false)))
+	add("vectoradd", []int{128, 1}, tm(cd(1, false, false)))
+
 	// region: timing + plain multi-GPU + unified memory (CommandProcessor.Driver nil)
 	add("fir", []int{1024, 16}, tm(g(2, false, true)))
 	add("fir", []int{1024, 16}, tm(g(4, false, true)))
 	add("atax", []int{33, 33}, tm(g(2, false, true)))
 	add("matrixtranspose", []int{256}, tm(g(4, false, true)))
+	add("simpleconvolution", []int{126, 34, 3}, tm(g(2, true, true))) // unified GPU: crashes once a second GPU gets work-groups
 
 	// region: cdna3, plain multi-GPU, grid split through HiddenGlobalOffsetX
 	for _, x := range []struct {
@@ -49,6 +101,13 @@ func canonical() []runCase {
 	// region: bitonicsort, gcn3 timing, two or more work-groups
 	add("bitonicsort", []int{256}, tm(g(1, false, false)))
 	add("bitonicsort", []int{128}, tm(g(1, false, false))) // one work-group: holds
+
+	// regions: gcn3 timing, later kernels re-read lines that another compute
+	// unit has overwritten since they were first read
+	add("floydwarshall", []int{24, 0}, tm(g(1, false, false)))
+	add("floydwarshall", []int{16, 0}, tm(g(1, false, false))) // holds
+	add("pagerank", []int{33, 200, 3}, tm(g(1, false, false)))
+	add("pagerank", []int{64, 2048, 2}, tm(g(1, false, false))) // acceptance size: holds
 
 	// region: nw with three or more 64-blocks (the package default length is 256)
 	add("nw", []int{192}, g(1, false, false))
